@@ -58,6 +58,9 @@ func vc17(kernels []int, symFlags bool) {
 	if k == 3 {
 		cfg = cfgTiny
 	}
+	if k == 1 {
+		cfg.lateInput = true // two unconnected sensors (bias and the late input): the choice among them must not depend on map order
+	}
 	cfg.symEnable, cfg.symRecur = symFlags, symFlags && cfg.symRecur
 	g1 := tGenome("g", 1, cfg)
 	o1 := tGenome("o", 2, pcfg(false, lInOut, lBiasOut))
@@ -84,7 +87,7 @@ func VC17_Kernels_Thorough() { vc17([]int{0, 1, 2, 3, 4, 5, 6, 7, 8}, true) }
 // speciation and spawning: same organisms, same stream => same membership and same genomes
 func VC17_Spawn() {
 	g := tGenome("g", 1, cfgTiny)
-	opts := c07Opts()
+	opts := &neat.Options{DisjointCoeff: 1, ExcessCoeff: 1, MutdiffCoeff: 0.5} // concrete coefficients keep the distance linear
 	opts.PopSize = 2
 	opts.CompatThreshold = vFloat("CompatThreshold")
 	vAssume(vAnd(opts.CompatThreshold > 0, opts.CompatThreshold <= 100))
